@@ -110,10 +110,26 @@ class Build:
         self.log = os.path.join(self.dir, "build.log")
         self._touch()
         _purge(self.hash)
+        self._keepalive()
 
     def _touch(self):
         with open(os.path.join(self.dir, ".lastuse"), "w") as f:
             f.write(str(time.time()))
+
+    def _keepalive(self):
+        """A long run (thorough tier, slow box) must not lose its build directory to the purge of a concurrent check
+        that works on another tree hash: refresh the stamp every few minutes for as long as this process lives."""
+        import threading
+
+        def loop():
+            while True:
+                time.sleep(240)
+                try:
+                    self._touch()
+                except OSError:
+                    return
+        t = threading.Thread(target=loop, name="build-keepalive", daemon=True)
+        t.start()
 
     def _lock(self, name):
         f = open(os.path.join(self.dir, "." + name + ".lock"), "w")
